@@ -21,7 +21,7 @@ def build(corpus_seed, random_types):
     if rc != 0:
         raise Harness("gen.py failed:\n" + out)
     shutil.copyfile("/repo/Cargo.lock", os.path.join(CRATE, "Cargo.lock"))
-    rc, out = sh(["cargo", "build", "--release", "--offline"], cwd=CRATE)
+    rc, out = sh(["cargo", "build", "--release", "--offline", "--target-dir", os.path.join(BUILD, "fmtsim")], cwd=CRATE)
     if rc != 0:
         raise Harness("fmtsim does not build against /repo's working tree (corpus seed %d):\n%s" % (corpus_seed, out[-6000:]))
 
